@@ -23,6 +23,7 @@ DROPS = ['region ctor_phases: three statements of runConstructorChain in their s
          'what lies between them (tracing to std::cerr, the parameter-to-field copy of `= default` constructors) is dropped; constructors of a class are rows {decl, params}; argumentsConversionCost is an uninterpreted function',
          'region member_dispatch: in the member-call branch of RuntimeEvaluator::eval, the then-branch of `if (target.type == Value::Type::Object && target.objectValue)` (which method runs for obj.m(...) / super.m(...)); findClass / findMethod / the vtable lookup are uninterpreted functions, methods are rows of a method table',
          'region member_dispatch_super: the branch that follows it, `else if (target.type == Value::Type::ClassRef && target.classRef)` (Name.m(...) and super.m(...): eval(SuperExpression) yields a reference to the base class); currentThisObject() is a ghost object id',
+         'regions exec_for / exec_while: the ForStatement / WhileStatement branches of exec (header parts become opaque statement ids; exec / eval of them are the ghost-recording models, which also count what runs while a return is pending; the for initialiser is a declaration or expression statement and cannot return)',
          'region exec_block: the BlockStatement branch of RuntimeEvaluator::exec (`block` becomes an opaque body identity; exec of the nested statements is the ghost-recording model)',
          'region dtor_walk: the for statement over the class chain inside `if (runUserDestructor && obj->cls)` of destroyObject; `obj`, `runUserDestructor` and the evaluator state become parameters / file-level variables',
          'classes are indices into a class table {base, destructorDecl, name} (0 = null); a declaration and its body are opaque identities; the statements of a body are (body, index) pairs',
@@ -182,7 +183,8 @@ class Profile(Lower):
         if so.get('kind') == 'CXXThisExpr' and name in ('beginScope', 'endScope'):
             return 'objm_%s()' % name
         if so.get('kind') == 'CXXThisExpr' and name == 'exec':
-            return 'objm_exec(%s)' % self.expr(args[0])
+            a0 = self.expr(args[0])
+            return ('objm_exec_for_init(%s)' if a0 == 'fors_initializer' else 'objm_exec(%s)') % a0
         if so.get('kind') == 'CXXThisExpr' and name == 'eval' and len(args) == 1:
             return 'objm_eval_truth(%s)' % self.expr(args[0])
         if self.ct(obj) == 'bl_stmt' and name == 'operator bool':
@@ -383,6 +385,27 @@ def lower_regions(docs, prof):
             prof.region_unlowered = {}
         prof.region_unlowered['exec_for'] = str(e)
         out.append(('void objm_exec_for(bl_stmt fors_initializer, bl_stmt fors_condition, bl_stmt fors_body, bl_stmt fors_increment)', None))
+    # the WhileStatement branch of exec
+    hw = 'void objm_exec_while(bl_stmt whiles_condition, bl_stmt whiles_body)'
+    try:
+        from units.arith import find_region
+        ex = cxx2c.find_functions(docs, 'exec')
+        body = [k for k in kids(ex[0]) if k.get('kind') == 'CompoundStmt'][0]
+        n, cast = find_region(body, 'whiles')
+        if not any('WhileStatement' in c for c in cast):
+            raise Unsupported('region `whiles` is no longer the dynamic_cast<WhileStatement*> branch')
+        prof.ctx = 'whiles'
+        prof.locals.add('whiles')
+        d6 = dict(kind='FunctionDecl', name='exec_while', type=dict(qualType='void ()'), inner=[kids(n)[2]])
+        h6, l6 = prof.func(d6, cname='exec_while', is_method=False)
+        prof.ctx = None
+        out.append((hw, l6))
+    except Unsupported as e:
+        prof.ctx = None
+        if not hasattr(prof, 'region_unlowered'):
+            prof.region_unlowered = {}
+        prof.region_unlowered['exec_while'] = str(e)
+        out.append((hw, None))
     # construction phases: base constructor chain, field initialisers, constructor body - in their source order
     hc = 'void objm_ctor_phases(bl_clsid cls, bl_objid obj, bl_decl ctor, _Bool hasExplicitSuper)'
     try:
@@ -488,7 +511,7 @@ size_t k1, k2; bl_clsid ca, cb;              /* ghost: two positions k1 < k2 on 
 _Bool g_hasA, g_hasB; size_t g_nsA, g_nsB, g_ns;     /* ghost: precomputed facts (no calls in invariants) */
 int g_a_entered, g_b_entered; _Bool g_a_started, g_b_started, g_b_started_when_a, g_a_this_ok, g_b_this_ok;
 size_t g_depth, g_depth0, g_a_depth, g_b_depth; Value g_this; _Bool g_this_valid; bl_objid g_obj;
-bl_clsid g_ctx0; _Bool g_st0, g_ct0, g_dt0; int g_begins, g_ends; size_t g_blk_n; int g_pclock, g_exec_n, g_exec_first_t; bl_stmt g_exec_first_stmt, g_first_body;
+bl_clsid g_ctx0; _Bool g_st0, g_ct0, g_dt0; int g_begins, g_ends; size_t g_blk_n; int g_pclock, g_exec_n, g_exec_first_t; bl_stmt g_exec_first_stmt, g_first_body; int g_after_return;   /* ghost: statements executed / expressions evaluated while a return was pending */
 typedef int bl_ctor; typedef int bl_ctors; typedef int bl_ptypes; typedef struct { _Bool has; int v; } opt_int;
 #ifndef NATIVE
 bl_clsid __CPROVER_uninterpreted_obj_cls(bl_objid); bl_body __CPROVER_uninterpreted_decl_body(bl_decl); size_t __CPROVER_uninterpreted_body_nstmts(bl_body); bl_stmt __CPROVER_uninterpreted_body_stmt(bl_body, size_t);
@@ -510,17 +533,20 @@ static inline void objm_beginScope(void) {
   if (ev_m_inDestructor && ev_m_currentClassCtx == cb && g_b_entered < 1000) g_b_entered = g_b_entered + 1;
 }
 static inline void objm_endScope(void) { if (g_depth > 0) g_depth = g_depth - 1; g_this_valid = 0; if (g_ends < 1000) g_ends = g_ends + 1; }
-static inline _Bool objm_eval_truth(bl_stmt e) { return nondet_bool(); }     /* evaluating a condition / increment expression: an arbitrary truth value */
+static inline _Bool objm_eval_truth(bl_stmt e) { if (ev_m_hasReturn && g_after_return < 1000) g_after_return = g_after_return + 1; return nondet_bool(); }     /* evaluating a condition / increment expression: an arbitrary truth value */
 static inline void objm_put_top(bl_cname name, VarEntry e) { if (name == BL_NAME_THIS) { g_this = e.value; g_this_valid = 1; } }
 static inline void objm_exec(bl_stmt s) {
+  if (ev_m_hasReturn && g_after_return < 1000) g_after_return = g_after_return + 1;
   if (g_pclock < 1000000) g_pclock = g_pclock + 1;
   if (g_exec_n == 0) { g_exec_first_t = g_pclock; g_exec_first_stmt = s; }
   if (g_exec_n < 1000000) g_exec_n = g_exec_n + 1;
   _Bool ok = g_this_valid && g_this.type == BL_Object && g_this.objectValue == g_obj && ev_m_currentClassCtx > 0 && ev_m_currentClassCtx < CMAX && g_this.className == g_cls[ev_m_currentClassCtx].name;
   if (ev_m_inDestructor && ev_m_currentClassCtx == ca && !g_a_started) { g_a_started = 1; g_b_started_when_a = g_b_started; g_a_this_ok = ok; g_a_depth = g_depth; }
   if (ev_m_inDestructor && ev_m_currentClassCtx == cb && !g_b_started) { g_b_started = 1; g_b_this_ok = ok; g_b_depth = g_depth; }
-  ev_m_hasReturn = nondet_bool();
+  if (!ev_m_hasReturn) ev_m_hasReturn = nondet_bool();      /* a pending return stays pending */
 }
+/* the initialiser of a for statement: a declaration or an expression statement (Parser::parseFor) - it cannot return */
+static inline void objm_exec_for_init(bl_stmt s) { _Bool r = ev_m_hasReturn; objm_exec(s); ev_m_hasReturn = r; }
 #endif
 /* ---- region member_dispatch: method table, uninterpreted class / method / vtable lookups, and the locals of eval the region updates */
 #ifndef MMAX
@@ -595,7 +621,7 @@ def A(t):
     return ('', 'assigns', t, [])
 
 
-GH_ALL = 'g_pclock, g_exec_n, g_exec_first_t, g_exec_first_stmt, g_begins, g_ends, ev_m_currentClassCtx, ev_m_inStaticContext, ev_m_inConstructor, ev_m_inDestructor, ev_m_hasReturn, g_a_entered, g_b_entered, g_a_started, g_b_started, g_b_started_when_a, g_a_this_ok, g_b_this_ok, g_depth, g_a_depth, g_b_depth, g_this, g_this_valid'
+GH_ALL = 'g_after_return, g_pclock, g_exec_n, g_exec_first_t, g_exec_first_stmt, g_begins, g_ends, ev_m_currentClassCtx, ev_m_inStaticContext, ev_m_inConstructor, ev_m_inDestructor, ev_m_hasReturn, g_a_entered, g_b_entered, g_a_started, g_b_started, g_b_started_when_a, g_a_this_ok, g_b_this_ok, g_depth, g_a_depth, g_b_depth, g_this, g_this_valid'
 INV_CTX = 'ev_m_currentClassCtx == g_ctx0 && ev_m_inStaticContext == g_st0 && ev_m_inConstructor == g_ct0 && ev_m_inDestructor == g_dt0 && g_depth == g_depth0'
 CONTRACTS = {
     'dtor_walk': {
@@ -643,14 +669,16 @@ CONTRACTS = {
 }
 CONTRACTS['exec_block'] = {
     'contract': [
-        R('bl_exc == 0 && g_depth < 1000000 && g_begins == 0 && g_ends == 0'),
+        R('bl_exc == 0 && g_depth < 1000000 && g_begins == 0 && g_ends == 0 && !ev_m_hasReturn && g_after_return == 0'),
         A(GH_ALL + ', g_blk_n'),
+        # C07 ("return inside loops", nested control flow): once a nested statement has returned, no further statement of the block runs
+        E('exec.block.nothing_runs_once_a_statement_has_returned', 'g_after_return == 0', ['C07']),
         # C09: a block opens exactly one scope and closes it on EVERY path (also when a nested statement returns), so nothing of it stays on the scope stack
         E('exec.block.scope_closed_on_every_path', 'g_depth == __CPROVER_old(g_depth) && g_begins == 1 && g_ends == 1', ['C09', 'C17']),
     ],
-    'loops': {0: {'assigns': 'bl_i0, ev_m_hasReturn, g_pclock, g_exec_n, g_exec_first_t, g_exec_first_stmt, g_a_started, g_b_started, g_b_started_when_a, g_a_this_ok, g_b_this_ok, g_a_depth, g_b_depth', 'ghost_in_bounded': True,
+    'loops': {0: {'assigns': 'bl_i0, g_after_return, ev_m_hasReturn, g_pclock, g_exec_n, g_exec_first_t, g_exec_first_stmt, g_a_started, g_b_started, g_b_started_when_a, g_a_this_ok, g_b_this_ok, g_a_depth, g_b_depth', 'ghost_in_bounded': True,
                   'before': 'g_blk_n = BODY_NSTMTS(block);',
-                  'invariants': [('exec_block.loop.bounds', 'bl_i0 <= g_blk_n')],
+                  'invariants': [('exec_block.loop.bounds', 'bl_i0 <= g_blk_n && !ev_m_hasReturn && g_after_return == 0')],
                   'decreases': 'g_blk_n - bl_i0'}},
 }
 PH = 'g_n_base, g_t_base, g_n_fields, g_t_fields, g_base_cls, g_fields_cls, g_base_obj, g_fields_obj, g_base_decl, g_base_raised, g_fields_raised, superCtorDecl, g_cb_n, g_min_has, g_min_cost, g_min_idx, g_min_cnt, g_min_decl, bl_exc, bl_exc_line, bl_exc_col'
@@ -718,18 +746,32 @@ CONTRACTS['member_dispatch_super'] = {
 }
 CONTRACTS['exec_for'] = {
     'contract': [
-        R('bl_exc == 0 && g_depth < 1000000 && g_begins == 0 && g_ends == 0 && g_pclock == 0 && g_exec_n == 0'),
+        R('bl_exc == 0 && g_depth < 1000000 && g_begins == 0 && g_ends == 0 && g_pclock == 0 && g_exec_n == 0 && !ev_m_hasReturn && g_after_return == 0'),
         A(GH_ALL + ', g_depth0'),
+        # C07: a return inside the body leaves the loop at once - neither the increment nor the condition is evaluated, the body does not run again
+        E('exec.for.nothing_runs_once_the_body_has_returned', 'g_after_return == 0', ['C07']),
         # C09: the scope of a for statement's header variable is opened once and closed on every path out of the loop (partial correctness:
         # the interpreted loop itself need not terminate, so there is no decreases clause)
         E('exec.for.scope_closed_on_every_path', 'g_depth == __CPROVER_old(g_depth) && g_begins == 1 && g_ends == 1', ['C09', 'C17']),
     ],
-    'loops': {0: {'assigns': 'ev_m_hasReturn, g_pclock, g_exec_n, g_exec_first_t, g_exec_first_stmt, g_a_started, g_b_started, g_b_started_when_a, g_a_this_ok, g_b_this_ok, g_a_depth, g_b_depth',
-                  'invariants': [('exec_for.loop.scope_open', 'g_depth == g_depth0 + 1 && g_begins == 1 && g_ends == 0')]}},
+    'loops': {0: {'assigns': 'g_after_return, ev_m_hasReturn, g_pclock, g_exec_n, g_exec_first_t, g_exec_first_stmt, g_a_started, g_b_started, g_b_started_when_a, g_a_this_ok, g_b_this_ok, g_a_depth, g_b_depth',
+                  'invariants': [('exec_for.loop.scope_open', 'g_depth == g_depth0 + 1 && g_begins == 1 && g_ends == 0 && !ev_m_hasReturn && g_after_return == 0')]}},
     'prologue': 'g_depth0 = g_depth;',
 }
+CONTRACTS['exec_while'] = {
+    'contract': [
+        R('bl_exc == 0 && g_depth < 1000000 && g_begins == 0 && g_ends == 0 && !ev_m_hasReturn && g_after_return == 0'),
+        A(GH_ALL),
+        E('exec.while.nothing_runs_once_the_body_has_returned', 'g_after_return == 0', ['C07']),
+        E('exec.while.opens_no_scope', 'g_depth == __CPROVER_old(g_depth) && g_begins == 0 && g_ends == 0', ['C09']),
+    ],
+    'loops': {0: {'assigns': 'g_after_return, ev_m_hasReturn, g_pclock, g_exec_n, g_exec_first_t, g_exec_first_stmt, g_a_started, g_b_started, g_b_started_when_a, g_a_this_ok, g_b_this_ok, g_a_depth, g_b_depth',
+                  'invariants': [('exec_while.loop.no_return_pending', '!ev_m_hasReturn && g_after_return == 0')]}},
+}
 HARNESSES = [
-    dict(name='exec_for', fn='exec_for', replace=[], flags=[], props=['C09', 'C17', 'C12'], timeout=300, unwind=4, guards_no_decreases=True,
+    dict(name='exec_for', fn='exec_for', replace=[], flags=[], props=['C09', 'C17', 'C12', 'C07'], timeout=300, unwind=4, guards_no_decreases=True,
+         canaries=[('ev_m_hasReturn', 'left by a return'), ('!ev_m_hasReturn', 'left by the condition')]),
+    dict(name='exec_while', fn='exec_while', replace=[], flags=[], props=['C07', 'C09', 'C12'], timeout=300, unwind=4, guards_no_decreases=True,
          canaries=[('ev_m_hasReturn', 'left by a return'), ('!ev_m_hasReturn', 'left by the condition')]),
     dict(name='ctor_phases', fn='ctor_phases', replace=[], flags=[], props=['C08', 'C12'], timeout=600, unwind=6,
          canaries=[('bl_exc == 0 && g_n_base == 1 && g_exec_n > 0', 'base chain, fields and body all ran'), ('bl_exc != 0', 'construction failed')]),
@@ -737,7 +779,7 @@ HARNESSES = [
          canaries=[('method != 0 && !a1', 'a method was selected'), ('a1', 'super call')]),
     dict(name='member_dispatch_super', fn='member_dispatch_super', replace=[], flags=[], props=['C08', 'C12'], timeout=300,
          canaries=[('a1', 'super call'), ('!a1', 'class-qualified call')]),
-    dict(name='exec_block', fn='exec_block', replace=[], flags=[], props=['C09', 'C17', 'C12'], timeout=300, unwind=5,
+    dict(name='exec_block', fn='exec_block', replace=[], flags=[], props=['C09', 'C17', 'C12', 'C07'], timeout=300, unwind=5,
          canaries=[('ev_m_hasReturn', 'a nested statement returned'), ('!ev_m_hasReturn', 'ran to the end')]),
     dict(name='dtor_walk', fn='dtor_walk', replace=[], flags=[], props=['C08', 'C09', 'C12'], timeout=600, unwind=5,
          canaries=[('g_a_started && g_b_started', 'both observed destructors ran'), ('!g_a_started', 'derived class has no destructor statement')]),
